@@ -23,6 +23,14 @@ func asBin(v ssa.Value, op token.Token) (ssa.Value, ssa.Value, bool) {
 func asBinConst(v ssa.Value, op token.Token) (ssa.Value, int64, bool) {
 	x, y, ok := asBin(v, op)
 	if !ok {
+		// x * 2^c is x << c in every integer type (both wrap the same way)
+		if op == token.SHL {
+			if mx, k, okM := asBinConst(v, token.MUL); okM && k > 0 {
+				if c, isP := log2(uint64(k)); isP {
+					return mx, int64(c), true
+				}
+			}
+		}
 		return nil, 0, false
 	}
 	if k, ok := constInt64(stripConv(y)); ok {
@@ -415,6 +423,9 @@ func requireFuncs(w *World, r *Report, names ...string) (map[string]*ssa.Functio
 	for _, n := range names {
 		if i := strings.Index(n, "."); i > 0 && !seenPkg[n[:i]] {
 			seenPkg[n[:i]] = true
+			if n[:i] == "size" {
+				continue // exception: package size measures platform-dependent sizes; its constants are meant to differ between platforms (R-HEADER compares them with types.Sizes per configuration)
+			}
 			shorts = append(shorts, n[:i])
 		}
 	}
